@@ -320,7 +320,7 @@ TRANSPARENT_SUFFIX = (
     '::into', '::borrow', '::borrow_mut', '::deref', '::deref_mut', '::to_string', '::into_bytes',
     '::into_iter', '::iter', '::as_deref', '::cloned', '::copied',
 )
-TRANSPARENT_CALLS = ('std::convert::From::from', 'std::convert::Into::into')
+TRANSPARENT_CALLS = ('core::convert::From::from', 'core::convert::Into::into')
 
 def is_transparent(cal):
     base = cal.split('<')[0] if False else cal
@@ -329,7 +329,7 @@ def is_transparent(cal):
     if cal in TRANSPARENT_CALLS:
         return True
     # Vec::from / String::from resolved to their impls
-    if cal.endswith('>::from') and ('std::vec::Vec' in cal or 'std::string::String' in cal) and 'ldap3' not in cal and 'lber' not in cal:
+    if cal.endswith('>::from') and ('alloc::vec::Vec' in cal.split(' as ')[0] or 'alloc::string::String' in cal.split(' as ')[0]) and 'ldap3' not in cal and 'lber' not in cal:
         return True
     return False
 
@@ -507,7 +507,7 @@ def const_eval(facts, e, depth=0):
         if dk.startswith('Const') or dk.startswith('AssocConst'):
             if d in facts.hir:
                 return const_eval(facts, facts.hir[d]['body'], depth + 1)
-            if d in ('std::i32::MAX', 'core::i32::MAX', 'i32::MAX', 'std::i32::MAX'):
+            if d.endswith('i32::MAX'):
                 return 2147483647
             return KNOWN_CONSTS.get(d)
         if dk.startswith('Ctor'):
